@@ -1,6 +1,7 @@
 package props
 
 import (
+	"go/constant"
 	"go/token"
 	"go/types"
 	"sort"
@@ -209,6 +210,7 @@ func runC17(c *Ctx) {
 	ruleStrLenUncapped(c, p, "C17.strlen")
 	ruleLostReceiverWrite(c, p, "C17.receiver")
 	ruleHeaderEveryColumn(c, p, "C17.descriptor")
+	ruleVarintFastPath(c, p, "C17.varint")
 	ruleReadFull(c, p, "C17.readfull")
 	ruleVersionPassThrough(c, p, "C17.version-through")
 	ruleEnsureExact(c, p, "C17.ensure")
@@ -1486,4 +1488,90 @@ func ruleHeaderEveryColumn(c *Ctx, p *core.Program, rule string) {
 		}
 	}
 	c.R.Count("block encoder column loops", n)
+}
+
+// ruleVarintFastPath (C02 / C17): a one-byte shortcut for uvarints only covers values below 0x80.
+func ruleVarintFastPath(c *Ctx, p *core.Program, rule string) {
+	c.R.Rule(rule, "in every proto function that encodes a value with encoding/binary's uvarint routines (PutUvarint, AppendUvarint) and also has a branch that emits the same value as one byte (byte(x) appended or stored), that branch is reachable only where the value is below 0x80 (x < K with K <= 128, x <= K with K <= 127): 0x80 itself needs two bytes (80 01), a single 0x80 reads as the first byte of a longer varint and shifts everything behind it")
+	cfg := p.Cfg.Name
+	n := 0
+	for _, fn := range p.Funcs() {
+		if pkgOf(fn) == nil || pkgOf(fn).Path() != core.PkgProto || fn.Blocks == nil {
+			continue
+		}
+		var xs []ssa.Value
+		for _, call := range core.Calls(fn) {
+			f := core.CalleeFunc(call)
+			if f == nil || f.Pkg() == nil || f.Pkg().Path() != "encoding/binary" || !strings.HasSuffix(f.Name(), "Uvarint") || strings.HasPrefix(f.Name(), "Read") {
+				continue
+			}
+			args := call.Common().Args
+			xs = append(xs, stripConv(args[len(args)-1]))
+		}
+		if len(xs) == 0 {
+			continue
+		}
+		n++
+		isX := func(v ssa.Value) bool {
+			v = stripConv(v)
+			for _, x := range xs {
+				if v == x {
+					return true
+				}
+			}
+			return false
+		}
+		bad := false
+		nb := 0
+		for _, b := range fn.Blocks {
+			for _, in := range b.Instrs {
+				cv, ok := in.(*ssa.Convert)
+				if !ok || !isX(cv.X) {
+					continue
+				}
+				bt, ok := cv.Type().Underlying().(*types.Basic)
+				if !ok || bt.Kind() != types.Uint8 {
+					continue
+				}
+				nb++
+				small := core.CondEdges(fn, true, func(cond ssa.Value) (bool, bool) {
+					bo, ok := cond.(*ssa.BinOp)
+					if !ok || !isX(bo.X) {
+						return false, false
+					}
+					k, okc := core.ConstInt(bo.Y)
+					if !okc {
+						if kc, isK := bo.Y.(*ssa.Const); isK && kc.Value != nil {
+							if u, isU := constant.Uint64Val(kc.Value); isU && u < 1<<62 {
+								k, okc = int64(u), true
+							}
+						}
+					}
+					if !okc {
+						return false, false
+					}
+					switch bo.Op {
+					case token.LSS:
+						return true, k <= 128
+					case token.LEQ:
+						return true, k <= 127
+					case token.GEQ:
+						return false, k <= 128
+					case token.GTR:
+						return false, k <= 127
+					}
+					return false, false
+				})
+				if len(small) == 0 || !core.OnlyViaEdges(fn, cv, small) {
+					bad = true
+					c.R.Bad(rule, core.FuncName(fn), cfg, p.Pos(cv.Pos()), "the value is emitted as a single byte on a path where it can be 0x80 or more: the byte has the continuation bit set and the decoder reads on into what follows")
+				}
+			}
+		}
+		if !bad {
+			c.R.Ok(rule, core.FuncName(fn), cfg, p.Pos(fn.Pos()), sprintf("uvarint encoder; %d one-byte branch(es), each below 0x80", nb))
+		}
+	}
+	c.R.Count("uvarint encoders["+cfg+"]", n)
+	c.R.Floor(rule, cfg, n, 1)
 }
